@@ -222,6 +222,13 @@ def t_binops(ex):
     return [bc(ex, "Push", a), bc(ex, "Push", b), sym_op(ex, list(BINOPS))]
 
 
+def t_two_ops(ex):
+    """thorough tier: two consecutive binary operations on three operands"""
+    a, b, c = (sym_value(ex, n, NOT_IDENT + ("Err",)) for n in "abc")
+    ops = ["Sub", "Lt", "Or", "Index"]
+    return [bc(ex, "Push", a), bc(ex, "Push", b), bc(ex, "Push", c), sym_op(ex, ops, "op1"), sym_op(ex, ops, "op2")]
+
+
 def t_unops(ex):
     a, z = sym_value(ex, "a", NOT_IDENT), sym_value(ex, "z", NOT_IDENT)
     return [bc(ex, "Push", z), bc(ex, "Push", a), sym_op(ex, ["Not", "Neg", "Test", "Dup", "Pop"])]
@@ -958,13 +965,14 @@ def check_vm(res, V):
 TARGETS = []
 
 
-def add(name, props, build, what, allow_bound=0, max_paths=20000):
-    TARGETS.append(dict(name=name, props=props.split(","), func="run_raw", self_ty="Interpreter", cfg=VM_CFG, make_args=template(build), check=check_vm, what=what,
+def add(name, props, build, what, allow_bound=0, max_paths=20000, tier="quick"):
+    TARGETS.append(dict(name=name, tier=tier, props=props.split(","), func="run_raw", self_ty="Interpreter", cfg=VM_CFG, make_args=template(build), check=check_vm, what=what,
                         allow_bound=allow_bound, max_paths=max_paths,
                         bounds={"program": "fixed template, symbolic operands", "depth_on_entry": "0..=200", "counts": "<= 4"}))
 
 
 add("vm_binops", "C03,C04,C06,C01", t_binops, "every binary opcode applies its operation to (first pushed, second pushed) in that order")
+add("vm_two_ops", "C03,C04,C06,C01", t_two_ops, "a op1 (b op2 c)-shaped stack programs: [a, b, c, op1, op2] applies op1 to (b, c) and op2 to (a, result)", tier="thorough", max_paths=60000)
 add("vm_unops", "C05,C01", t_unops, "Not/Neg/Test/Dup/Pop: Test keeps failures and otherwise yields the truthiness; stack effects")
 add("vm_resolve", "C12,C08,C01", t_resolve, "identifier operands resolve: type name, then variable, then stored program (same interpreter), else an unbound-name failure value")
 add("vm_jmpcond", "C05,C10,C01", t_jmpcond, "JmpCond pops; jumps iff Bool == when, a failing condition counts as 'false'; other kinds fail; targets bounded", allow_bound=10000)
